@@ -202,4 +202,8 @@ def run(repo, tier):
     from .common import run_label_eq
     if run_label_eq(repo, res, {'photutils.segmentation.core', 'photutils.segmentation.catalog'}) < 3:
         raise AnalysisError('vanished anchor: per-label loops over (label, slices)')
+    from .common import run_clones, run_loop_twin
+    if run_clones(repo, res) < 25:
+        raise AnalysisError('vanished anchor: cloned shape/moment methods of SourceCatalog and ApertureStats')
+    run_loop_twin(repo, res, {'photutils.segmentation.catalog', 'photutils.aperture.stats'})
     return res
